@@ -35,6 +35,8 @@ Failed == bad
           \cup F("C09_Program", TR.prog = Prog)
           \cup F("C09_Length", Len(TR.steps) = Len(Prog))
           \cup F("C09_Result", (Len(TR.steps) = Len(Prog) /\ Len(stack) >= 1) => Canon(stack[1]) = Canon(TermOf(TR.tree)))
+          \* what the public entry point returned for this tree (the property itself, on the recording)
+          \cup F("C09_RecordedResult", Canon(TR.result) = Canon(TermOf(TR.tree)))
           \cup F("C09_OneLeft", Len(TR.steps) = Len(Prog) => Len(stack) = 1)
 Report == Done => PrintT(<<"RES", tid, SetToSeq(Failed)>>)
 =============================================================================
